@@ -1,4 +1,5 @@
 CONSTANTS Conns <- C2
+  Dpid <- DpidId
   I = 2
   TO = 1
   Late = 1
@@ -17,4 +18,5 @@ PROPERTY SilentDisconnected
 PROPERTY ResponsiveNeverDisconnected
 PROPERTY EchoOnlyIfUp
 PROPERTY TicksSpaced
+PROPERTY OrphanNeverProbed
 CHECK_DEADLOCK FALSE
